@@ -15,6 +15,7 @@
 package main
 
 import (
+	"bytes"
 	"crypto/sha1"
 	"encoding/binary"
 	"fmt"
@@ -68,10 +69,15 @@ type Budget struct {
 	Delays      int    `json:"delays"`            // messages (or duplicates) parked outside the FIFO pool
 	Lags        int    `json:"lags,omitempty"`    // lag(n): the application of n starts applying asynchronously
 	Applies     int    `json:"applies,omitempty"` // apply(n): one held page of committed entries applied + Advance
+	// persist lag (see evPLag): plag(n) = the application of n is slow in persisting: every Ready
+	// is held as a whole; persist(n) = one held Ready persisted, sent, applied, advanced
+	Plags    int `json:"persist_lags,omitempty"`
+	Persists int `json:"persists,omitempty"`
 }
 
 type used struct {
 	Proposals, Drops, Dups, Crashes, Heartbeats, Compacts, ConfChanges, Transfers, Expires, Delays, Lags, Applies uint8
+	Plags, Persists                                                                                               uint8
 }
 
 // Event kinds.
@@ -113,12 +119,34 @@ const (
 	evLag
 	evApply
 	evUnlag
+	// Persist lag, the second lag flavour. In apply lag the node persists and sends a Ready at
+	// once and holds only the committed page; but an application (raftexample: rd := <-Ready();
+	// wal.Save(rd.HardState, rd.Entries); transport.Send(rd.Messages); publishEntries; Advance())
+	// is also slow *before* it has written anything, and the raft state machine (node.run)
+	// steps incoming messages from the moment the Ready was handed out. A node in persist-lag
+	// mode (evPLag) takes rd := Ready() and holds the WHOLE Ready: nothing persisted, nothing
+	// sent, nothing applied. While it is held every input calls the library without a Ready
+	// cycle (as in apply lag). evPersist releases it: HardState, snapshot and entries are
+	// persisted from the held Ready - i.e. from whatever its slices contain at that moment - its
+	// messages are handed out, its committed entries applied, Advance; the Ready loop resumes
+	// and the next Ready is held again. A crash loses a held Ready entirely (storage untouched,
+	// messages never sent). The raft.Ready contract says the application owns these slices until
+	// Advance: at the release they are compared with a deep copy taken at the hand-out
+	// (ReadyMutatedAfterHandOut). evUnplag leaves the mode (only while nothing is held, so that
+	// every release is observed on its own).
+	evPLag
+	evPersist
+	evUnplag
 	evKinds
 )
 
 var evNames = [...]string{"deliver", "drop", "dup", "campaign", "heartbeat", "propose", "crash", "restart", "compact", "proposeConf", "transferLeader", "leaseExpire", "isolate",
-	"delay", "dupDelayed", "release", "lag", "apply", "unlag"}
-var evShort = [...]string{"D", "X", "U", "C", "H", "P", "K", "R", "S", "F", "T", "E", "I", "Y", "V", "Z", "L", "A", "N"}
+	"delay", "dupDelayed", "release", "lag", "apply", "unlag", "plag", "persist", "unplag"}
+var evShort = [...]string{"D", "X", "U", "C", "H", "P", "K", "R", "S", "F", "T", "E", "I", "Y", "V", "Z", "L", "A", "N", "G", "B", "M"}
+
+// compile-time checks: one name per event kind
+var _ = [1]struct{}{}[len(evNames)-int(evKinds)]
+var _ = [1]struct{}{}[len(evShort)-int(evKinds)]
 
 // Conf-change variants (A field of evConf). "J" is the joiner id (Members+1), "L" the last
 // initial member (Members), "J2" the second joiner (Members+2, only with Cfg.Joiners >= 2).
@@ -162,6 +190,9 @@ const (
 	inLag
 	inApply
 	inUnlag
+	inPLag
+	inPersist
+	inUnplag
 )
 
 // input is one entry of a node's private input history. A node's state is a deterministic
@@ -195,6 +226,9 @@ type effects struct {
 	snapIdx     uint64 // index of that snapshot (either case)
 	snapBelow   uint64 // snapIgnored / obsolete: the applied index the snapshot did not exceed
 	pages       int    // held pages of committed entries applied by this input (apply / unlag)
+	heldNew     bool   // persist lag: this input ended with a fresh Ready held as a whole
+	released    int    // persist lag: whole Readys released (persisted, sent, applied, advanced) by this input
+	mutated     string // persist lag: first difference between the released Ready and its copy taken at the hand-out
 	panicVal    string
 	panicStack  string
 }
@@ -224,6 +258,98 @@ type live struct {
 	// not.
 	lag  bool
 	held *raft.Ready
+
+	// persist lag (see evPLag): every Ready is held as a whole (heldWhole says that `held` is
+	// such a Ready: nothing of it has been persisted, sent or applied); handed is the deep copy
+	// taken when it was handed out. plag survives a crash like lag does.
+	plag      bool
+	heldWhole bool
+	handed    *readyImage
+}
+
+// readyImage is a deep copy of the parts of a Ready that the application owns until Advance:
+// the entries to persist, the committed entries, the messages (marshalled, entries included)
+// and the snapshot.
+type readyImage struct {
+	ents      []pb.Entry
+	committed []pb.Entry
+	msgs      [][]byte
+	snapMeta  []byte
+	snapData  []byte
+}
+
+func cloneEntries(es []pb.Entry) []pb.Entry {
+	out := make([]pb.Entry, len(es))
+	for i := range es {
+		out[i] = es[i]
+		out[i].Data = append([]byte(nil), es[i].Data...)
+	}
+	return out
+}
+
+func imageOfReady(rd *raft.Ready) *readyImage {
+	im := &readyImage{ents: cloneEntries(rd.Entries), committed: cloneEntries(rd.CommittedEntries)}
+	for i := range rd.Messages {
+		enc, err := rd.Messages[i].Marshal()
+		if err != nil {
+			panic(err)
+		}
+		im.msgs = append(im.msgs, enc)
+	}
+	if !raft.IsEmptySnap(rd.Snapshot) {
+		enc, err := rd.Snapshot.Metadata.Marshal()
+		if err != nil {
+			panic(err)
+		}
+		im.snapMeta = enc
+		im.snapData = append([]byte(nil), rd.Snapshot.Data...)
+	}
+	return im
+}
+
+func diffEntries(what string, was, now []pb.Entry) string {
+	if len(was) != len(now) {
+		return fmt.Sprintf("%s: %d entries at the hand-out, %d now", what, len(was), len(now))
+	}
+	for i := range was {
+		if !sameEntry(&was[i], &now[i]) {
+			return fmt.Sprintf("%s[%d] was %s at the hand-out and is %s now", what, i, descEntry(&was[i]), descEntry(&now[i]))
+		}
+	}
+	return ""
+}
+
+// diff compares the Ready as it is now with the copy taken when it was handed out; "" = equal.
+func (im *readyImage) diff(rd *raft.Ready) string {
+	if d := diffEntries("Ready.Entries", im.ents, rd.Entries); d != "" {
+		return d
+	}
+	if d := diffEntries("Ready.CommittedEntries", im.committed, rd.CommittedEntries); d != "" {
+		return d
+	}
+	if len(im.msgs) != len(rd.Messages) {
+		return fmt.Sprintf("Ready.Messages: %d messages at the hand-out, %d now", len(im.msgs), len(rd.Messages))
+	}
+	for i := range rd.Messages {
+		enc, err := rd.Messages[i].Marshal()
+		if err != nil {
+			return fmt.Sprintf("Ready.Messages[%d] cannot be marshalled any more: %v", i, err)
+		}
+		if !bytes.Equal(enc, im.msgs[i]) {
+			var was pb.Message
+			was.Unmarshal(im.msgs[i])
+			return fmt.Sprintf("Ready.Messages[%d] was {%s} at the hand-out and is {%s} now", i, descMsg(&was), descMsg(&rd.Messages[i]))
+		}
+	}
+	var meta, data []byte
+	if !raft.IsEmptySnap(rd.Snapshot) {
+		meta, _ = rd.Snapshot.Metadata.Marshal()
+		data = rd.Snapshot.Data
+	}
+	if !bytes.Equal(meta, im.snapMeta) || !bytes.Equal(data, im.snapData) {
+		return fmt.Sprintf("Ready.Snapshot changed after the hand-out (now index %d, term %d)", rd.Snapshot.Metadata.Index, rd.Snapshot.Metadata.Term)
+	}
+	return ""
 }
 
 type digest [8]byte
@@ -375,45 +501,15 @@ func (n *live) pump(eff *effects) {
 			panic("raftmc: Ready loop does not terminate")
 		}
 		rd := n.rn.Ready()
-		if !raft.IsEmptyHardState(rd.HardState) {
-			n.st.SetHardState(rd.HardState)
+		if n.plag {
+			// slow in persisting: the whole Ready waits for persist(n); the library has been
+			// told that it was handed out (Ready() = readyWithoutAccept + acceptReady, what
+			// node.run does when the application takes the Ready from readyc)
+			n.held, n.heldWhole, n.handed = &rd, true, imageOfReady(&rd)
+			eff.heldNew = true
+			return
 		}
-		if !raft.IsEmptySnap(rd.Snapshot) {
-			// Receiver side of MsgSnap: the library decided to restore, the application
-			// persists the snapshot (ApplySnapshot replaces the storage's log by the
-			// snapshot boundary) and loads it into its state machine; the applied index
-			// follows. raftexample's publishSnapshot treats a snapshot at or below the
-			// applied index as fatal, MemoryStorage refuses one at or below its own
-			// snapshot: both are recorded and raised as ObsoleteSnapshotInReady, and the
-			// application state is left alone (like a real application, we do not roll a
-			// state machine back).
-			idx := rd.Snapshot.Metadata.Index
-			eff.snapIdx = idx
-			err := n.st.ApplySnapshot(rd.Snapshot)
-			switch {
-			case err != nil || idx <= n.appliedIdx:
-				eff.snapIgnored = true
-				eff.snapBelow = n.appliedIdx
-			default:
-				eff.snapApplied = true
-				n.confState = rd.Snapshot.Metadata.ConfState
-				n.appliedIdx = idx
-				copy(n.appDigest[:], rd.Snapshot.Data)
-			}
-		}
-		if len(rd.Entries) > 0 {
-			if err := n.st.Append(rd.Entries); err != nil {
-				panic(err)
-			}
-		}
-		for _, m := range rd.Messages {
-			m = cloneMsg(m)
-			enc, err := m.Marshal()
-			if err != nil {
-				panic(err)
-			}
-			eff.msgs = append(eff.msgs, outMsg{m, enc})
-		}
+		n.persistAndSend(&rd, eff)
 		if n.lag && len(rd.CommittedEntries) > 0 {
 			// slow applier: everything up to here (persist, install a snapshot, send) is
 			// done, the committed page and the Advance wait for apply(n) / unlag(n)
@@ -422,6 +518,50 @@ func (n *live) pump(eff *effects) {
 		}
 		n.applyPage(&rd, eff, false)
 		n.rn.Advance(rd)
+	}
+}
+
+// persistAndSend is the first half of the handling of a Ready: HardState, snapshot and entries
+// go to the storage, the messages are handed to the network.
+func (n *live) persistAndSend(rd *raft.Ready, eff *effects) {
+	if !raft.IsEmptyHardState(rd.HardState) {
+		n.st.SetHardState(rd.HardState)
+	}
+	if !raft.IsEmptySnap(rd.Snapshot) {
+		// Receiver side of MsgSnap: the library decided to restore, the application
+		// persists the snapshot (ApplySnapshot replaces the storage's log by the
+		// snapshot boundary) and loads it into its state machine; the applied index
+		// follows. raftexample's publishSnapshot treats a snapshot at or below the
+		// applied index as fatal, MemoryStorage refuses one at or below its own
+		// snapshot: both are recorded and raised as ObsoleteSnapshotInReady, and the
+		// application state is left alone (like a real application, we do not roll a
+		// state machine back).
+		idx := rd.Snapshot.Metadata.Index
+		eff.snapIdx = idx
+		err := n.st.ApplySnapshot(rd.Snapshot)
+		switch {
+		case err != nil || idx <= n.appliedIdx:
+			eff.snapIgnored = true
+			eff.snapBelow = n.appliedIdx
+		default:
+			eff.snapApplied = true
+			n.confState = rd.Snapshot.Metadata.ConfState
+			n.appliedIdx = idx
+			copy(n.appDigest[:], rd.Snapshot.Data)
+		}
+	}
+	if len(rd.Entries) > 0 {
+		if err := n.st.Append(rd.Entries); err != nil {
+			panic(err)
+		}
+	}
+	for _, m := range rd.Messages {
+		m = cloneMsg(m)
+		enc, err := m.Marshal()
+		if err != nil {
+			panic(err)
+		}
+		eff.msgs = append(eff.msgs, outMsg{m, enc})
 	}
 }
 
@@ -462,6 +602,22 @@ func (n *live) releaseHeld(eff *effects) {
 	n.rn.Advance(*rd)
 }
 
+// releaseWhole is persist(n): the held Ready is first compared with the copy taken at the
+// hand-out (the application owns Entries, CommittedEntries, Messages and Snapshot until
+// Advance), then handled exactly like pump handles a Ready - from the held value, i.e. from
+// whatever its slices contain now.
+func (n *live) releaseWhole(eff *effects) {
+	rd, im := n.held, n.handed
+	n.held, n.heldWhole, n.handed = nil, false, nil
+	if eff.mutated == "" {
+		eff.mutated = im.diff(rd)
+	}
+	n.persistAndSend(rd, eff)
+	n.applyPage(rd, eff, false)
+	eff.released++
+	n.rn.Advance(*rd)
+}
+
 func (n *live) confChange(v uint16) pb.ConfChangeI {
 	j := uint64(n.cfg.Members + 1)
 	l := uint64(n.cfg.Members)
@@ -495,12 +651,20 @@ func (n *live) feed(in *input) (eff effects) {
 	case inCrash:
 		// a held Ready is lost with the RawNode; what the application has applied stays
 		n.rn = nil
-		n.held = nil
+		n.held, n.heldWhole, n.handed = nil, false, nil
 		n.alive = false
 		return
 	case inLag:
 		n.lag = true
 		return
+	case inPLag:
+		n.plag = true
+		return
+	case inUnplag:
+		n.plag = false
+		return
+	case inPersist:
+		n.releaseWhole(&eff)
 	case inApply:
 		n.releaseHeld(&eff)
 	case inUnlag:
@@ -615,8 +779,21 @@ type node struct {
 	heldSum     digest // hash over the held page (index, term, type, data of every entry)
 	heldEntIdx  uint64 // last of the held Ready's Entries (what Advance will mark stable)
 	heldEntTrm  uint64
-	heldSnapIdx uint64 // index of the held Ready's snapshot (already installed), 0 if none
+	heldSnapIdx uint64 // index of the held Ready's snapshot (apply lag: already installed; persist lag: not yet), 0 if none
 	in          inside // held only: what the RawNode has not handed out yet
+
+	// persist lag: the mode (survives a crash) and, if the held Ready is held as a whole
+	// (nothing persisted, sent or applied), the rest of it: HardState, entries (range and hash
+	// over their CURRENT content - it is what persist(n) will write), snapshot term, messages
+	plag        bool
+	heldWhole   bool
+	heldHS      pb.HardState
+	heldEntLo   uint64 // first of the held Ready's Entries (0: none)
+	heldEntN    int
+	heldEntSum  digest
+	heldSnapTrm uint64
+	heldMsgN    int
+	heldMsgSum  digest
 }
 
 type voteRec struct {
@@ -625,21 +802,43 @@ type voteRec struct {
 }
 
 func freeze(n *live, parent *node, in *input, eff *effects, h hist) *node {
-	f := &node{cfg: n.cfg, id: n.id, h: h, parent: parent, eff: eff, alive: n.alive, confState: n.confState, appliedIdx: n.appliedIdx, appDigest: n.appDigest, lag: n.lag}
+	f := &node{cfg: n.cfg, id: n.id, h: h, parent: parent, eff: eff, alive: n.alive, confState: n.confState, appliedIdx: n.appliedIdx, appDigest: n.appDigest, lag: n.lag, plag: n.plag}
 	if in != nil {
 		f.inp = *in
 	}
 	if rd := n.held; rd != nil && n.rn != nil {
 		f.held = true
-		ce := rd.CommittedEntries
-		f.heldLo, f.heldHi = ce[0].Index, ce[len(ce)-1].Index
-		for i := range ce {
-			f.heldSum = f.heldSum.next(ce[i].Index, ce[i].Term, ce[i].Type, ce[i].Data)
+		if ce := rd.CommittedEntries; len(ce) > 0 {
+			f.heldLo, f.heldHi = ce[0].Index, ce[len(ce)-1].Index
+			for i := range ce {
+				f.heldSum = f.heldSum.next(ce[i].Index, ce[i].Term, ce[i].Type, ce[i].Data)
+			}
 		}
 		if k := len(rd.Entries); k > 0 {
 			f.heldEntIdx, f.heldEntTrm = rd.Entries[k-1].Index, rd.Entries[k-1].Term
 		}
 		f.heldSnapIdx = rd.Snapshot.Metadata.Index
+		if n.heldWhole {
+			f.heldWhole = true
+			f.heldHS = rd.HardState
+			f.heldSnapTrm = rd.Snapshot.Metadata.Term
+			f.heldEntN = len(rd.Entries)
+			for i := range rd.Entries {
+				e := &rd.Entries[i]
+				if i == 0 {
+					f.heldEntLo = e.Index
+				}
+				f.heldEntSum = f.heldEntSum.next(e.Index, e.Term, e.Type, e.Data)
+			}
+			f.heldMsgN = len(rd.Messages)
+			for i := range rd.Messages {
+				enc, err := rd.Messages[i].Marshal()
+				if err != nil {
+					enc = []byte(err.Error())
+				}
+				f.heldMsgSum = f.heldMsgSum.next(uint64(i), 0, 0, enc)
+			}
+		}
 		if eff.panicVal == "" {
 			f.in = peekInside(n.rn)
 		}
@@ -867,7 +1066,7 @@ func (s *sim) thaw(f *node) *live {
 	}
 	var n *live
 	if g.img != nil {
-		n = &live{cfg: g.cfg, id: g.id, st: g.img.materialise(), alive: false, confState: g.confState, appliedIdx: g.appliedIdx, appDigest: g.appDigest, lag: g.lag}
+		n = &live{cfg: g.cfg, id: g.id, st: g.img.materialise(), alive: false, confState: g.confState, appliedIdx: g.appliedIdx, appDigest: g.appDigest, lag: g.lag, plag: g.plag}
 	} else {
 		n, _ = bootLive(g.cfg, g.id)
 	}
@@ -896,7 +1095,7 @@ type ledgerEnt struct {
 
 // Coverage flags of a transition.
 const (
-	fTwoLeaders        uint32 = 1 << iota // >= 2 live leaders (necessarily in different terms)
+	fTwoLeaders        uint64 = 1 << iota // >= 2 live leaders (necessarily in different terms)
 	fTruncation                           // a persisted entry was replaced / the log got shorter
 	fCommitOlderTerm                      // commit index moved over an entry of an earlier term than the node's
 	fSnapSent                             // MsgSnap emitted
@@ -927,6 +1126,13 @@ const (
 	fPageApplied                          // a held page of committed entries was applied (apply / unlag)
 	fCrashHeld                            // crash of a node that held a Ready
 	fSnapWhileHeld                        // MsgSnap stepped by a node that held a Ready (the held page may end up below the snapshot)
+	fReadyHeldWhole                       // persist lag: a Ready was handed out and is held as a whole (nothing persisted, sent, applied)
+	fWhileHeldWhole                       // persist lag: the event called the library on a node holding such a Ready
+	fTruncHeldWhole                       // persist lag: a MsgApp stepped by such a node replaced or cut unstable entries (conflict with a later-term leader)
+	fTruncMidHeldWhole                    // ... and the first replaced index lies strictly inside the unstable entries (truncateAndAppend's third case)
+	fTruncInReady                         // ... and inside the index range of the held Ready's Entries (the slots the application is about to persist)
+	fPersistRelease                       // persist lag: a held Ready was released (persist(n))
+	fCrashHeldWhole                       // persist lag: crash of a node holding an unpersisted Ready (lost entirely)
 	fFlags             = iota
 )
 
@@ -936,7 +1142,11 @@ var flagNames = [...]string{"two_live_leaders_in_different_terms", "conflict_tru
 	"compactions", "compactions_on_non_leaders", "some_storage_compacted", "msgsnap_deliveries", "stale_msgsnap_deliveries_index_at_or_below_receiver_commit",
 	"stale_msgsnap_handled_after_receiver_compacted_beyond_it", "restarts_from_compacted_storage", "delayed_messages_released",
 	"inputs_to_a_node_holding_a_ready", "campaigns_with_committed_conf_changes_unapplied", "campaigns_refused_because_of_unapplied_conf_changes",
-	"held_pages_applied", "crashes_while_a_ready_was_held", "msgsnap_stepped_by_a_node_holding_a_ready"}
+	"held_pages_applied", "crashes_while_a_ready_was_held", "msgsnap_stepped_by_a_node_holding_a_ready",
+	"readys_held_before_persisting", "inputs_stepped_while_an_unpersisted_ready_was_held", "msgapps_that_truncated_unstable_entries_while_an_unpersisted_ready_was_held",
+	"msgapps_that_truncated_in_the_middle_of_the_unstable_entries_while_an_unpersisted_ready_was_held",
+	"msgapps_that_truncated_inside_the_entries_of_the_held_unpersisted_ready",
+	"unpersisted_readys_released", "crashes_while_an_unpersisted_ready_was_held"}
 
 // compile-time check: one name per flag
 var _ = [1]struct{}{}[len(flagNames)-fFlags]
@@ -967,7 +1177,7 @@ type cluster struct {
 	ownHist  bool        // leaderOf / ledger are private copies (copy on write)
 
 	viol  []violation // raised by the transition that produced this state
-	flags uint32
+	flags uint64
 
 	nodesArr [6]*node
 }
@@ -1131,14 +1341,20 @@ func (c *cluster) step(e Event) *cluster {
 				}
 			}
 		}
-		if n.held {
+		if n.held && !n.heldWhole {
 			d.flags |= fWhileHeld
 			if p.m.Type == pb.MsgSnap {
 				d.flags |= fSnapWhileHeld
 			}
 		}
+		if n.heldWhole {
+			d.flags |= fWhileHeldWhole
+		}
 		g := c.sim.exec(n, &input{k: inStep, msg: p.m, enc: p.enc})
 		d.nodes[n.id-1] = g
+		if n.heldWhole && g.heldWhole && p.m.Type == pb.MsgApp {
+			d.flags |= unstableTruncated(n, g)
+		}
 		d.absorb(g, n, e)
 		return d
 	}
@@ -1156,7 +1372,7 @@ func (c *cluster) step(e Event) *cluster {
 	}
 	u := c.used
 	var in input
-	var fl uint32
+	var fl uint64
 	switch e.K {
 	case evCampaign:
 		if !n.alive || n.isLeader() || n.status.Term >= c.bud.MaxTerm {
@@ -1183,8 +1399,11 @@ func (c *cluster) step(e Event) *cluster {
 			return nil
 		}
 		u.Crashes++
-		if n.held {
+		if n.held && !n.heldWhole {
 			fl |= fCrashHeld
+		}
+		if n.heldWhole {
+			fl |= fCrashHeldWhole
 		}
 		in = input{k: inCrash}
 	case evRestart:
@@ -1237,13 +1456,13 @@ func (c *cluster) step(e Event) *cluster {
 		u.Expires++
 		in = input{k: inExpire}
 	case evLag:
-		if !n.alive || n.lag || int(u.Lags) >= c.bud.Lags {
+		if !n.alive || n.lag || n.plag || int(u.Lags) >= c.bud.Lags {
 			return nil
 		}
 		u.Lags++
 		in = input{k: inLag}
 	case evApply:
-		if !n.alive || !n.held || int(u.Applies) >= c.bud.Applies {
+		if !n.alive || !n.held || n.heldWhole || int(u.Applies) >= c.bud.Applies {
 			return nil
 		}
 		u.Applies++
@@ -1253,11 +1472,32 @@ func (c *cluster) step(e Event) *cluster {
 			return nil
 		}
 		in = input{k: inUnlag}
+	case evPLag:
+		// the two lag flavours exclude each other on a node
+		if !n.alive || n.plag || n.lag || int(u.Plags) >= c.bud.Plags {
+			return nil
+		}
+		u.Plags++
+		in = input{k: inPLag}
+	case evPersist:
+		if !n.alive || !n.heldWhole || int(u.Persists) >= c.bud.Persists {
+			return nil
+		}
+		u.Persists++
+		in = input{k: inPersist}
+	case evUnplag:
+		if !n.alive || !n.plag || n.held {
+			return nil
+		}
+		in = input{k: inUnplag}
 	default:
 		return nil
 	}
-	if n.held && e.K != evApply && e.K != evUnlag && e.K != evCrash {
+	if n.held && !n.heldWhole && e.K != evApply && e.K != evUnlag && e.K != evCrash {
 		fl |= fWhileHeld
+	}
+	if n.heldWhole && e.K != evPersist && e.K != evCrash {
+		fl |= fWhileHeldWhole
 	}
 	d := c.clone()
 	d.used = u
@@ -1272,6 +1512,28 @@ func (c *cluster) step(e Event) *cluster {
 }
 
 var zeroNode = &node{}
+
+// unstableTruncated compares the unstable entries of a node that holds an unpersisted Ready
+// before and after it stepped a MsgApp: coverage flags for a conflict truncation (an index that
+// was there is gone or has another term), for one that starts strictly inside the unstable
+// entries, and for one that starts inside the index range of the held Ready's Entries.
+func unstableTruncated(before, after *node) uint64 {
+	for i := range before.in.ents {
+		be := &before.in.ents[i]
+		if ae, ok := after.memEntryAt(be.Index); ok && ae.Term == be.Term {
+			continue
+		}
+		fl := fTruncHeldWhole
+		if be.Index > before.in.offset {
+			fl |= fTruncMidHeldWhole
+		}
+		if before.heldEntN > 0 && be.Index > before.heldEntLo && be.Index < before.heldEntLo+uint64(before.heldEntN) {
+			fl |= fTruncInReady
+		}
+		return fl
+	}
+	return 0
+}
 
 // absorb moves the effects of the input that produced n into the cluster (pool, history
 // variables) and checks every invariant that the event could have affected.
@@ -1316,6 +1578,12 @@ func (c *cluster) absorb(n, before *node, e Event) {
 	}
 	if eff.pages > 0 {
 		c.flags |= fPageApplied
+	}
+	if eff.heldNew {
+		c.flags |= fReadyHeldWhole
+	}
+	if eff.released > 0 {
+		c.flags |= fPersistRelease
 	}
 	c.check(n, before, eff, e)
 }
@@ -1407,6 +1675,8 @@ func (c *cluster) describe(e Event) string {
 				s += " [receiver down: lost]"
 			} else if c.iso != 0 && (c.pool[i].m.To == uint64(c.iso) || c.pool[i].m.From == uint64(c.iso)) {
 				s += " [crosses the partition: lost]"
+			} else if n.heldWhole {
+				s += " [receiver holds an unpersisted Ready: stepped, nothing persisted or sent]"
 			} else if n.held {
 				s += " [receiver holds a Ready: stepped, nothing persisted or sent]"
 			}
@@ -1425,10 +1695,24 @@ func (c *cluster) describe(e Event) string {
 		return fmt.Sprintf("isolate(%d)", e.N)
 	case evLag:
 		return fmt.Sprintf("lag(%d) [the application of node %d applies asynchronously from now on]", e.N, e.N)
+	case evPLag:
+		return fmt.Sprintf("plag(%d) [the application of node %d is slow in persisting from now on: every Ready is held as a whole]", e.N, e.N)
+	case evUnplag:
+		return fmt.Sprintf("unplag(%d) [node %d handles its Readys at once again]", e.N, e.N)
+	case evPersist:
+		if n := c.node(uint64(e.N)); n != nil && n.heldWhole {
+			return fmt.Sprintf("persist(%d) [the held Ready is persisted (%s), its %d messages sent, its committed entries applied, Advance; Ready loop resumes, the next Ready is held]", e.N, n.descHeldEnts(), n.heldMsgN)
+		}
 	case evApply, evUnlag:
 		if n := c.node(uint64(e.N)); n != nil && n.held {
 			return fmt.Sprintf("%s(%d) [applies the held page %d..%d, Advance, Ready loop resumes]", evNames[e.K], e.N, n.heldLo, n.heldHi)
 		}
+	}
+	if n := c.node(uint64(e.N)); n != nil && n.heldWhole {
+		if e.K == evCrash {
+			return fmt.Sprintf("crash(%d) [the held unpersisted Ready is lost: %s, %d messages]", e.N, n.descHeldEnts(), n.heldMsgN)
+		}
+		return fmt.Sprintf("%s(%d) [node holds an unpersisted Ready: library called, nothing persisted or sent]", evNames[e.K], e.N)
 	}
 	if n := c.node(uint64(e.N)); n != nil && n.held && e.K != evCrash {
 		return fmt.Sprintf("%s(%d) [node holds a Ready: library called, nothing persisted or sent]", evNames[e.K], e.N)
@@ -1450,7 +1734,13 @@ func (c *cluster) summary() string {
 		}
 		fmt.Fprintf(&b, "  n%d %-12s t%d vote=%d lead=%d commit=%d applied=%d log=%s", n.id, n.status.RaftState, n.status.Term, n.status.Vote, n.status.Lead,
 			n.status.Commit, n.status.Applied, descLog(n))
-		if n.held {
+		if n.heldWhole {
+			fmt.Fprintf(&b, " PLAG holds an unpersisted Ready: hs=(t%d v%d c%d) %s snapshot=%d messages=%d committed page %d..%d; persisted hs=(t%d v%d c%d); unstable in the library: %d entries from index %d, %d messages queued",
+				n.heldHS.Term, n.heldHS.Vote, n.heldHS.Commit, n.descHeldEnts(), n.heldSnapIdx, n.heldMsgN, n.heldLo, n.heldHi,
+				n.hs.Term, n.hs.Vote, n.hs.Commit, len(n.in.ents), n.in.offset, len(n.in.msgs))
+		} else if n.plag {
+			b.WriteString(" PLAG")
+		} else if n.held {
 			fmt.Fprintf(&b, " LAG holds page %d..%d; persisted hs=(t%d v%d c%d); voters=%v; not yet handed out: %d entries, %d messages", n.heldLo, n.heldHi,
 				n.hs.Term, n.hs.Vote, n.hs.Commit, sortedIDs(n.status.Config.Voters[0]), len(n.in.ents), len(n.in.msgs))
 		} else if n.lag {
@@ -1472,6 +1762,14 @@ func (c *cluster) summary() string {
 		}
 	}
 	return b.String()
+}
+
+// descHeldEnts renders the index range of the Entries of a held unpersisted Ready.
+func (n *node) descHeldEnts() string {
+	if n.heldEntN == 0 {
+		return "no entries"
+	}
+	return fmt.Sprintf("entries %d..%d", n.heldEntLo, n.heldEntLo+uint64(n.heldEntN)-1)
 }
 
 func descLog(n *node) string {
